@@ -1100,13 +1100,15 @@ func SetPipeResp(response *structs.PipeSearchResponseOuter, qid uint64) error {
 	}
 
 	rQuery.rqsLock.Lock()
-	defer rQuery.rqsLock.Unlock()
 	rQuery.pipeResp = response
 	rQuery.totalRecsSearched = rQuery.totalRecsToBeSearched
 	rQuery.queryCount = &structs.QueryCount{
 		TotalCount: uint64(len(response.Hits.Hits)),
 		EarlyExit:  true,
 	}
+	// Send after unlocking: the consumer of StateChan takes rqsLock (IsAsync)
+	// between receives, so a send on a full channel under the lock deadlocks.
+	rQuery.rqsLock.Unlock()
 
 	rQuery.StateChan <- &QueryStateChanData{
 		StateName:       QUERY_UPDATE,
@@ -1181,22 +1183,30 @@ func IncProgressForRRCCmd(recordsSearched uint64, unitsSearched uint64, qid uint
 	}
 
 	rQuery.rqsLock.Lock()
-	defer rQuery.rqsLock.Unlock()
 
 	if rQuery.Progress == nil {
+		rQuery.rqsLock.Unlock()
 		return utils.TeeErrorf("IncProgressForRRCCmd: qid=%v Progress is not initialized!", qid)
 	}
 
 	rQuery.Progress.UnitsSearched += unitsSearched
 	rQuery.Progress.RecordsSearched += recordsSearched
 
+	var update *QueryStateChanData
 	if rQuery.isAsync {
 		wsResponse := CreateWSUpdateResponseWithProgress(qid, rQuery.QType, rQuery.Progress, rQuery.scrollFrom)
-		rQuery.StateChan <- &QueryStateChanData{
+		update = &QueryStateChanData{
 			StateName:    QUERY_UPDATE,
 			UpdateWSResp: wsResponse,
 			Qid:          qid,
 		}
+	}
+	// Send after unlocking: the consumer of StateChan takes rqsLock (IsAsync)
+	// between receives, so a send on a full channel under the lock deadlocks.
+	rQuery.rqsLock.Unlock()
+
+	if update != nil {
+		rQuery.StateChan <- update
 	}
 
 	return nil
